@@ -5,16 +5,18 @@ package main
 import (
 	"go/ast"
 	"go/token"
+	"go/types"
 	"strings"
 )
 
 func init() {
 	register(&Rule{
-		ID: "DP-imp", Props: []string{"C06"}, Min: 1,
+		ID: "DP-imp", Props: []string{"C06"}, Min: 3,
 		Doc: `obiuniq must not depend on the order of its input, also for records that were already dereplicated. In pkg/obiseq.(*BioSequence).Merge the annotations whose key starts with the
 statistics prefix (merged_) are exempted from the clean-up that drops differing values; the loop that merges the statistics maps must therefore cover every such key either record holds, not only the
 requested ones: the function collects, under a positive test of that prefix on the keys of an annotation map, the names it then merges. Otherwise the merged_<k> map of an attribute that is not
-requested again is kept from whichever record comes first (counts are summed, the map is not: {A:3} or {B:5} for a class of count 8, depending on the input order).`,
+requested again is kept from whichever record comes first (counts are summed, the map is not: {A:3} or {B:5} for a class of count 8, depending on the input order). And where a class is folded
+record by record ((BioSequenceSlice).Merge), that set is computed over the whole class before the first pairwise merge (a call receiving the whole slice and returning the descriptions).`,
 		Run: func(c *Ctx, s *Sink) {
 			fd, p := c.FindFunc("pkg/obiseq", "(*BioSequence).Merge")
 			key := "pkg/obiseq.(*BioSequence).Merge:unrequested-statistics-merged"
@@ -49,28 +51,92 @@ requested again is kept from whichever record comes first (counts are summed, th
 				return false, false
 			}
 			exempts, collects := false, false
+			// the function itself and the functions of the package it calls (the collection may be a helper)
+			bodies := []ast.Node{fd.Body}
 			ast.Inspect(fd.Body, func(n ast.Node) bool {
-				ifs, ok := n.(*ast.IfStmt)
-				if !ok {
-					return true
-				}
-				// `if !HasPrefix(k, prefix) {clean-up}` exempts; `if name, ok := CutPrefix(k, prefix); ok {…}` or `if HasPrefix(…) {…}` collects
-				if pos, found := isPrefixTest(ifs.Cond); found {
-					if pos {
-						collects = true
-					} else {
-						exempts = true
-					}
-				}
-				if as, ok := ifs.Init.(*ast.AssignStmt); ok && len(as.Rhs) == 1 {
-					if _, found := isPrefixTest(as.Rhs[0]); found {
-						if id, ok := ast.Unparen(ifs.Cond).(*ast.Ident); ok && len(as.Lhs) == 2 && rootObj(info, as.Lhs[1]) == info.ObjectOf(id) {
-							collects = true
+				if call, ok := n.(*ast.CallExpr); ok {
+					if f := callee(info, call); f != nil && f.Pkg() != nil && rel(f.Pkg().Path()) == "pkg/obiseq" {
+						if d, dp := c.DeclOf(f); d != nil && d.Body != nil && dp == p && d != fd {
+							bodies = append(bodies, d.Body)
 						}
 					}
 				}
 				return true
 			})
+			for _, body := range bodies {
+				ast.Inspect(body, func(n ast.Node) bool {
+					ifs, ok := n.(*ast.IfStmt)
+					if !ok {
+						return true
+					}
+					// `if !HasPrefix(k, prefix) {clean-up}` exempts; `if name, ok := CutPrefix(k, prefix); ok {…}` or `if HasPrefix(…) {…}` collects
+					if pos, found := isPrefixTest(ifs.Cond); found {
+						if pos {
+							collects = true
+						} else {
+							exempts = true
+						}
+					}
+					if as, ok := ifs.Init.(*ast.AssignStmt); ok && len(as.Rhs) == 1 {
+						if _, found := isPrefixTest(as.Rhs[0]); found {
+							if id, ok := ast.Unparen(ifs.Cond).(*ast.Ident); ok && len(as.Lhs) == 2 && rootObj(info, as.Lhs[1]) == info.ObjectOf(id) {
+								collects = true
+							}
+						}
+					}
+					return true
+				})
+			}
+			// the fold over a class: the set of statistics is computed on the whole class before the first pairwise merge
+			if sfd, sp := c.FindFunc("pkg/obiseq", "(BioSequenceSlice).Merge"); sfd != nil {
+				sinfo := sp.TypesInfo
+				k2 := "pkg/obiseq.(BioSequenceSlice).Merge:statistics-of-the-whole-class"
+				var loop *ast.RangeStmt
+				ast.Inspect(sfd.Body, func(n ast.Node) bool {
+					if r, ok := n.(*ast.RangeStmt); ok && loop == nil {
+						pair := false
+						ast.Inspect(r.Body, func(m ast.Node) bool {
+							if call, ok := m.(*ast.CallExpr); ok {
+								if f := callee(sinfo, call); f != nil && f.Name() == "Merge" {
+									pair = true
+								}
+							}
+							return true
+						})
+						if pair {
+							loop = r
+						}
+					}
+					return true
+				})
+				if loop == nil {
+					s.Undecided(nil, k2, sfd.Pos(), "no fold of pairwise merges")
+				} else {
+					recv := sinfo.ObjectOf(sfd.Recv.List[0].Names[0])
+					whole := false
+					ast.Inspect(sfd.Body, func(n ast.Node) bool {
+						call, ok := n.(*ast.CallExpr)
+						if !ok || call.Pos() > loop.Pos() {
+							return true
+						}
+						// a call given the whole receiver (sequences... or sequences) whose result has the type of the descriptions
+						if t := sinfo.TypeOf(call); t == nil || !strings.HasSuffix(t.String(), "StatsOnDescriptions") {
+							return true
+						}
+						for _, a := range call.Args {
+							if id, ok := ast.Unparen(a).(*ast.Ident); ok && sinfo.ObjectOf(id) == recv {
+								whole = true
+							}
+						}
+						return true
+					})
+					if exempts && !whole {
+						s.Fail(nil, k2, loop.Pos(), "the class is folded record by record and the statistics maps not requested again are discovered on the two records of each step only: the map carried by the third record is started after the attributes of the first two have been dropped — {sample:a}, {sample:b}, {count 3, merged_sample {c:3}} gives merged_sample {NA:2, c:3} in this order and {a:1, b:1, c:3} when the third record comes first")
+					} else {
+						s.Pass(nil, k2, loop.Pos(), "the statistics maps held by the records are collected over the whole class before the fold")
+					}
+				}
+			}
 			switch {
 			case !exempts:
 				s.Pass(nil, key, fd.Pos(), "no annotation is exempted from the clean-up by its prefix")
@@ -82,13 +148,24 @@ requested again is kept from whichever record comes first (counts are summed, th
 			_ = strings.TrimSpace
 			// DP-eq: the values of the category attributes are compared the way the classifier compares them
 			key = "pkg/obiseq.(*BioSequence).Merge:category-equality-as-classifier"
-			// does the classifier of the package normalise values with fmt.Sprint?
+			// the function through which the classifier of the package turns a value into the text it classifies on
+			// (fmt.Sprint, or a helper of the package): the callee of 'val = F(value)'
 			normalises := false
+			normName := map[string]bool{}
 			if cfd, cp := c.FindFunc("pkg/obiseq", "AnnotationClassifier"); cfd != nil {
 				ast.Inspect(cfd.Body, func(n ast.Node) bool {
-					if call, ok := n.(*ast.CallExpr); ok {
-						if f := callee(cp.TypesInfo, call); f != nil && f.Pkg() != nil && f.Pkg().Path() == "fmt" && f.Name() == "Sprint" {
-							normalises = true
+					as, ok := n.(*ast.AssignStmt)
+					if !ok || len(as.Rhs) != 1 {
+						return true
+					}
+					if call, ok := ast.Unparen(as.Rhs[0]).(*ast.CallExpr); ok && len(call.Args) == 1 {
+						if f := callee(cp.TypesInfo, call); f != nil && f.Pkg() != nil {
+							if t, ok := cp.TypesInfo.TypeOf(call).(*types.Basic); ok && t.Kind() == types.String {
+								if _, isIface := cp.TypesInfo.TypeOf(call.Args[0]).Underlying().(*types.Interface); isIface {
+									normalises = true
+									normName[fullName(f)] = true
+								}
+							}
 						}
 					}
 					return true
@@ -130,7 +207,7 @@ requested again is kept from whichever record comes first (counts are summed, th
 							}
 						}
 					case *ast.CallExpr:
-						if f := callee(info, x); f != nil && f.Pkg() != nil && f.Pkg().Path() == "fmt" && f.Name() == "Sprint" {
+						if f := callee(info, x); f != nil && normName[fullName(f)] {
 							sprint = true
 						}
 					}
@@ -148,9 +225,97 @@ requested again is kept from whichever record comes first (counts are summed, th
 			case nsite == 0:
 				s.Undecided(nil, key, fd.Pos(), "no comparison of two annotation values guarding a delete")
 			case bad > 0:
-				s.Fail(nil, key, fd.Pos(), "the classifier groups the records on the written form of the category values (fmt.Sprint) while Merge compares the raw values: 1 and \"1\" fall in the same class, differ for Merge, and the category attribute is deleted — two output records end up with the same key, and a second obiuniq merges them (the command is not idempotent)")
+				s.Fail(nil, key, fd.Pos(), "the classifier groups the records on the text of the category values (the function it calls on them) while Merge compares the raw values, or their text by another function: 1 and \"1\" fall in the same class, differ for Merge, and the category attribute is deleted — two output records end up with the same key, and a second obiuniq merges them (the command is not idempotent)")
 			default:
 				s.Pass(nil, key, fd.Pos(), "values equal for the classifier are equal for the merge")
+			}
+		},
+	})
+}
+
+func init() {
+	register(&Rule{
+		ID: "CTX", Props: []string{"C06"}, Min: 2,
+		Doc: `"independent of in-memory or on-disk mode", "exactly one record per distinct key": the key of a class is the text of its category values, and the on-disk mode writes the records to
+temporary files and reads them back. The function through which the classifiers of pkg/obiseq turn a value into that text (the callee of 'val = F(value)' in AnnotationClassifier) must give the
+text that is written: (1) in its type switch the clause for string does not return the value as it is — the writers replace each byte that is not valid UTF-8 by U+FFFD, so "for\xeat" and
+"for\xe8t" (Latin-1) are one key once written and two in memory: obiuniq --in-memory -c sample printed two records with the same key and a merged map with twice the same entry, the default mode
+one record; (2) it has a clause for float64 that does not go through fmt.Sprint — %v writes 2759204.0 as 2.759204e+06 where an int and the writers give 2759204.`,
+		Run: func(c *Ctx, s *Sink) {
+			cfd, cp := c.FindFunc("pkg/obiseq", "AnnotationClassifier")
+			if cfd == nil {
+				s.Undecided(nil, "pkg/obiseq.AnnotationClassifier:text", 0, "function not found")
+				return
+			}
+			var norm *types.Func
+			ast.Inspect(cfd.Body, func(n ast.Node) bool {
+				as, ok := n.(*ast.AssignStmt)
+				if !ok || len(as.Rhs) != 1 {
+					return true
+				}
+				if call, ok := ast.Unparen(as.Rhs[0]).(*ast.CallExpr); ok && len(call.Args) == 1 {
+					if f := callee(cp.TypesInfo, call); f != nil && f.Pkg() != nil {
+						if _, isIface := cp.TypesInfo.TypeOf(call.Args[0]).Underlying().(*types.Interface); isIface {
+							norm = f
+						}
+					}
+				}
+				return true
+			})
+			k1, k2 := "pkg/obiseq:category-text:string-as-written", "pkg/obiseq:category-text:float-as-written"
+			if norm == nil {
+				s.Undecided(nil, k1, cfd.Pos(), "the classifier does not turn its values into a text through a function")
+				return
+			}
+			nd, np := c.DeclOf(norm)
+			if nd == nil {
+				// fmt.Sprint and the like: raw strings, %v floats
+				s.Fail(nil, k1, cfd.Pos(), "the text of a category value is "+fullName(norm)+"(value), or the value itself for a string: bytes that are not valid UTF-8 are compared as they are in memory and as U+FFFD once written")
+				s.Fail(nil, k2, cfd.Pos(), "the text of a category value is "+fullName(norm)+"(value): a float64 holding 2759204 gives 2.759204e+06, an int and the writers give 2759204 — two records with the same key")
+				return
+			}
+			info := np.TypesInfo
+			strOK, fltOK, fltSeen := true, false, false
+			ast.Inspect(nd.Body, func(n ast.Node) bool {
+				cc, ok := n.(*ast.CaseClause)
+				if !ok {
+					return true
+				}
+				for _, te := range cc.List {
+					switch types.ExprString(te) {
+					case "string":
+						for _, st := range cc.Body {
+							if r, ok := st.(*ast.ReturnStmt); ok && len(r.Results) == 1 {
+								if _, isId := ast.Unparen(r.Results[0]).(*ast.Ident); isId {
+									strOK = false
+								}
+							}
+						}
+					case "float64":
+						fltSeen, fltOK = true, true
+						for _, st := range cc.Body {
+							ast.Inspect(st, func(m ast.Node) bool {
+								if call, ok := m.(*ast.CallExpr); ok {
+									if f := callee(info, call); f != nil && f.Pkg() != nil && f.Pkg().Path() == "fmt" {
+										fltOK = false
+									}
+								}
+								return true
+							})
+						}
+					}
+				}
+				return true
+			})
+			if strOK {
+				s.Pass(nil, k1, nd.Pos(), "a string goes through a function before being the key")
+			} else {
+				s.Fail(nil, k1, nd.Pos(), "a string is its own text: bytes that are not valid UTF-8 are compared as they are in memory and as U+FFFD once written to the temporary files or to the output — for\\xeat and for\\xe8t are two classes printed under one key in memory and one class on disk")
+			}
+			if fltSeen && fltOK {
+				s.Pass(nil, k2, nd.Pos(), "an integral float64 gives the text of the integer")
+			} else {
+				s.Fail(nil, k2, nd.Pos(), "a float64 is written by fmt: 2759204 held as a float64 gives 2.759204e+06, held as an int or written by the writers 2759204 — obiuniq --in-memory -c taxid outputs two records with the same key")
 			}
 		},
 	})
